@@ -131,6 +131,15 @@ func modeC03(thorough bool) {
 		}
 		inc.close()
 	}
+	// a short idle time-out (1 s) and an upstream that takes 2.5 s: a connection with a query in flight is not
+	// idle - the client keeps it open and gets its response on it
+	if ini, err := newInst("c03-idle", instOpts{listeners: []string{"tcp", "gnet", "tls", "quic", "http", "https", "fasthttp"}, upstreams: map[string]string{"u1": "udp"}, rules: []ruleSpec{{Forward: "u1"}}, idleTimeout: 1}); err == nil {
+		par(7, func(i int) {
+			lst := []string{"tcp", "gnet", "tls", "quic", "http", "https", "fasthttp"}[i]
+			ini.send(lst, "", mkq(fmt.Sprintf("%s.r0t60d2500.idle.test.", uniq())), 5*time.Second, nil)
+		})
+		ini.close()
+	}
 	// a UDP client that advertises 65535 octets and an answer of 65508..65535 octets: legal for the advertised
 	// size, impossible as one datagram. The client still gets a response, and the listener keeps answering.
 	for k := 0; k < 2; k++ {
